@@ -42,6 +42,9 @@ BUDGET_S = {"quick": 70, "thorough": 2400}
 CONFIGS = ["inmemory", "journal_file", "sqlite", "cached_sqlite", "journal_redis", "grpc:inmemory", "grpc:journal_file", "grpc:sqlite", "journal_file_openlock", "grpc:cached_sqlite"]
 
 
+CAT_CHOICES = [None, "a", "b", 3]
+
+
 class Arena:
     n_arenas = 0
     pickled_consumers = False
@@ -108,23 +111,29 @@ class Arena:
             tok = self.next_token
             self.next_token += 1
         value = tok + 0.5
+        cval = (rng or __import__("random").Random(tok)).choice(CAT_CHOICES)     # a second, categorical parameter whose queued value may be None
         before = len(study.get_trials(deepcopy=False))
         if how == "enqueue_trial":
             d = self._shared_dict          # the caller re-uses (and later mutates) the dict it passes
             d["x"] = value
+            d["c"] = cval
             ua = {"token": tok}
             study.enqueue_trial(d, user_attrs=ua)
             d["x"] = -1.0                  # mutation after enqueueing must not reach the queue
+            d["c"] = "b" if cval != "b" else "a"
             ua["token"] = -1
         elif how == "add_trial":
-            study.add_trial(create_trial(state=TrialState.WAITING, system_attrs={"fixed_params": {"x": value}}, user_attrs={"token": tok}))
+            study.add_trial(create_trial(state=TrialState.WAITING, system_attrs={"fixed_params": {"x": value, "c": cval}}, user_attrs={"token": tok}))
         else:  # retry of a failed trial (the failed trial is added as such: asking for one would pop the queue)
-            study.add_trial(create_trial(state=TrialState.FAIL, params={"x": value}, distributions={"x": FloatDistribution(0, 1000)},
+            from optuna.distributions import CategoricalDistribution
+
+            study.add_trial(create_trial(state=TrialState.FAIL, params={"x": value, "c": cval},
+                                         distributions={"x": FloatDistribution(0, 1000), "c": CategoricalDistribution(CAT_CHOICES)},
                                          user_attrs={"token": tok, "orig": True}))
             frozen = [t for t in study.get_trials(deepcopy=True) if t.user_attrs.get("token") == tok and t.state == TrialState.FAIL][0]
             optuna.storages.RetryFailedTrialCallback()(study, frozen)
         with self.lock:
-            self.tokens[tok] = {"how": how, "value": value, "queued_after_n_trials": before}
+            self.tokens[tok] = {"how": how, "value": value, "c": cval, "queued_after_n_trials": before}
         return tok
 
     # -- consumers --------------------------------------------------------------------------
@@ -135,7 +144,8 @@ class Arena:
         t0 = time.monotonic_ns()
         t = study.ask()
         x = t.suggest_float("x", 0, 1000)
-        rec = {"consumer": ci, "trial_id": t._trial_id, "number": t.number, "x": x, "token": t.user_attrs.get("token"), "retry_of": t.system_attrs.get("failed_trial"),
+        c = t.suggest_categorical("c", CAT_CHOICES)
+        rec = {"c": c, "consumer": ci, "trial_id": t._trial_id, "number": t.number, "x": x, "token": t.user_attrs.get("token"), "retry_of": t.system_attrs.get("failed_trial"),
                "user_attrs": dict(t.user_attrs), "t_call": t0, "t_ret": time.monotonic_ns()}
         if finish == "complete":
             study.tell(t, x)
@@ -186,6 +196,10 @@ def judge(ctx: Ctx, ar: Arena, facts: dict, case: dict, expect_drained: bool) ->
         r = rs[0]
         if r["x"] != info["value"] or type(r["x"]) is not float:
             ctx.violation({**base, "kind": "fixed_value_not_verbatim", "how": info["how"]}, f"token {tok}: queued x={info['value']!r} but suggest returned {r['x']!r}", case)
+            return
+        if not (r["c"] is info["c"] or (r["c"] == info["c"] and type(r["c"]) is type(info["c"]))):
+            ctx.violation({**base, "kind": "fixed_value_not_verbatim", "how": info["how"], "param": "categorical", "queued_value_is_none": info["c"] is None},
+                          f"token {tok}: queued c={info['c']!r} but suggest_categorical returned {r['c']!r}", case)
             return
         if r["user_attrs"].get("token") != tok:
             ctx.violation({**base, "kind": "user_attrs_changed", "how": info["how"]}, f"token {tok}: user attrs {r['user_attrs']}", case)
@@ -394,8 +408,8 @@ study = optuna.load_study(storage=st, study_name=name, sampler=optuna.samplers.R
 out = []
 for _ in range(int(n)):
     try:
-        t = study.ask(); x = t.suggest_float("x", 0, 1000)
-        out.append({{"consumer": int(ci), "trial_id": t._trial_id, "number": t.number, "x": x, "token": t.user_attrs.get("token"), "retry_of": t.system_attrs.get("failed_trial"),
+        t = study.ask(); x = t.suggest_float("x", 0, 1000); c = t.suggest_categorical("c", [None, "a", "b", 3])
+        out.append({{"c": c, "consumer": int(ci), "trial_id": t._trial_id, "number": t.number, "x": x, "token": t.user_attrs.get("token"), "retry_of": t.system_attrs.get("failed_trial"),
                     "user_attrs": dict(t.user_attrs)}})
         study.tell(t, x)
     except Exception as e:
